@@ -484,3 +484,45 @@ func (w *World) Reachable(r mast.Root) (map[string]*ref.Node, error) {
 func ReachableIn(cfg Config, link string, load func(string) ([]byte, bool)) (map[string]*ref.Node, error) {
 	return ref.Reachable(link, cfg.DecodeNode, load)
 }
+
+// ResyncModel rebuilds a tree's model from what the tree actually holds (used after an
+// operation failed under an injected fault, where the post-state is not this check's subject).
+func (w *World) ResyncModel(t *Tree) error {
+	kvs, err := IterAll(t.M)
+	if err != nil {
+		return err
+	}
+	model := Model{}
+	for _, kv := range kvs {
+		ki := -1
+		lo, hi := 0, len(w.Pool)
+		for lo < hi {
+			mid := (lo + hi) / 2
+			c := w.Cfg.RefCompare(w.Pool[mid], kv.K)
+			if c == 0 {
+				ki = mid
+				break
+			} else if c < 0 {
+				lo = mid + 1
+			} else {
+				hi = mid
+			}
+		}
+		if ki < 0 {
+			return fmt.Errorf("tree holds key %v which is not in the pool", kv.K)
+		}
+		vn := -1
+		for n := 0; n < 64; n++ {
+			if EqualVal(kv.V, w.Cfg.MakeVal(n)) {
+				vn = n
+				break
+			}
+		}
+		if vn < 0 {
+			return fmt.Errorf("tree holds an unknown value for key %v", kv.K)
+		}
+		model[ki] = vn
+	}
+	t.Model = model
+	return nil
+}
